@@ -163,8 +163,10 @@ func (setA ObjMetadataSet) Unique() ObjMetadataSet {
 // Hash the objects in the set by serializing, sorting, concatonating, and
 // hashing the result with the 32-bit FNV-1a algorithm.
 func (setA ObjMetadataSet) Hash() string {
-	objStrs := make([]string, 0, len(setA))
-	for _, obj := range setA {
+	// Hash the set, not the list: duplicates must not change the result.
+	objMap := setA.ToMap()
+	objStrs := make([]string, 0, len(objMap))
+	for obj := range objMap {
 		objStrs = append(objStrs, obj.String())
 	}
 	sort.Strings(objStrs)
